@@ -48,7 +48,9 @@ PROGRAMS = [
      ["find_expectation", "remove_expectation_for", "have_always_expectation_for",
       "have_never_call_expectation_for", "remove_never_call_expectation_for",
       "is_always_call", "is_never_call", "is_first_call_matching", "destroy_expectation_if_time_to_die",
-      "successfully_mocked_call", "trigger_unfulfilled_expectations"]),
+      "successfully_mocked_call", "trigger_unfulfilled_expectations",
+      "expect_", "always_expect_", "never_expect_", "tally_mocks", "clear_mocks",
+      "handle_missing_expectation_for", "report_unexpected_call", "report_violated_never_call"]),
     # cgreen-runner's selection of tests
     ("tool", "tools/runner.c", ["test_matches_pattern", "context_name_of", "test_name_of"]),
     # percent signs in failure messages
